@@ -714,7 +714,7 @@ def applySubtable (recurse : Ctx → Nat → M (Ctx × Bool)) (nestingFull : Boo
           let s := subst.getD i 0
           let (okB, startIndex) ← matchBacktrack c back.length (fun g i => nthCov back i g)
           let (okA, endIndex) ← if okB then matchLookahead c ahead.length (fun g i => nthCov ahead i g) (c.buf.idx + 1)
-                                else pure (false, 0)
+                                else pure (false, c.buf.idx + 1)   -- `let mut end_index = ctx.buffer.idx + 1`
           if okB && okA then
             let b ← c.buf.unsafeToBreakFromOut startIndex (some endIndex)
             let c ← setGlyphClass { c with buf := b } s 0 false false
